@@ -1648,7 +1648,22 @@ def _zip(fr, *its):
     seqs = [fr.as_sequence(x) for x in its]
     if all(isinstance(s, list) for s in seqs):
         return [tuple(x) for x in zip(*seqs)]
-    raise Unsupported("zip over abstract sequences")
+    # abstract sequences (rows of tensors with symbolic leading dimensions): zip stops at the shortest
+    its2 = []
+    for s_ in seqs:
+        if isinstance(s_, list):
+            items = list(s_)
+            its2.append(Iter(len(items), (lambda i, items=items: items[O.conc_int(i)])))
+        elif s_.ghost is not None or s_.has is not None:
+            raise Unsupported("zip over a ghosted iterator")
+        else:
+            its2.append(s_)
+    if any(isinstance(x.count, int) for x in its2) and not all(isinstance(x.count, int) for x in its2):
+        raise Unsupported("zip over concrete and abstract sequences")
+    n = its2[0].count
+    for x in its2[1:]:
+        n = O.vmin(n, x.count)
+    return Iter(O.simp(n), lambda i: tuple(x.item(i) for x in its2))
 
 
 @lib('builtins.tuple')
